@@ -131,10 +131,11 @@ def account(ctx, raw):
     per = ctx.extra.setdefault("lines_per_format", {})
     outc = ctx.extra.setdefault("outcomes", {})
     decs = ctx.extra.setdefault("complete_decodes_per_api", {})
-    fmt = None
+    fmt, cur_len = None, 0
     for s in raw:
         if s.startswith('{"k":"file"'):
-            fmt = json.loads(s)["f"]["fmt"]
+            fl = json.loads(s)
+            fmt, cur_len = fl["f"]["fmt"], fl["len"]
             ctx.traces += 1
             ctx.extra["files_" + fmt] = ctx.extra.get("files_" + fmt, 0) + 1
             continue
@@ -154,6 +155,19 @@ def account(ctx, raw):
             ctx.extra["node_decodes_judged"] = ctx.extra.get("node_decodes_judged", 0) + 1
         if ln["k"] == "node" and kind == "error":
             ctx.extra["node_prefix_errors_judged"] = ctx.extra.get("node_prefix_errors_judged", 0) + 1
+        # input-side counters for the vacuity guard (they do not depend on what the code under test did)
+        inp = ctx.extra.setdefault("inputs", {"complete_decodes": 0, "prefix_decodes": 0, "node_reads_complete": 0,
+                                              "node_reads_prefix": 0, "node_reads_short_buffer": 0})
+        if ln["k"] == "dec":
+            inp["complete_decodes"] += 1
+        elif ln["k"] == "cut":
+            inp["prefix_decodes"] += 1
+        elif ln["short"]:
+            inp["node_reads_short_buffer"] += 1
+        elif ln["at"] == cur_len:
+            inp["node_reads_complete"] += 1
+        else:
+            inp["node_reads_prefix"] += 1
 
 
 def design_checks(ctx):
@@ -229,10 +243,10 @@ def run(ctx):
 
     ctx.extra["rejections_per_signature"] = ctx.extra.pop("_per_sig", {})
     missing = [f for f in FORMATS if ctx.extra["lines_per_format"].get(f, 0) == 0]
-    oc = ctx.extra["outcomes"]
-    if missing or not oc.get("dec:ok") or not oc.get("cut:error") or not ctx.extra.get("node_decodes_judged") \
-            or not ctx.extra.get("node_prefix_errors_judged"):
-        raise core.Infra("vacuous run: formats without lines %s, outcomes %s" % (missing, oc))
+    inp = ctx.extra.get("inputs", {})
+    if missing or not all(inp.get(k) for k in ("complete_decodes", "prefix_decodes", "node_reads_complete",
+                                               "node_reads_prefix", "node_reads_short_buffer")):
+        raise core.Infra("vacuous run: formats without lines %s, inputs %s" % (missing, inp))
     ctx.nontrivial = ctx.evaluations
     ctx.rule = ("a case is (well-formed file, decoder entry point, io.Reader behaviour) for complete files and "
                 "(file, entry point, cut position) for strict prefixes: files are all small abstract files enumerated "
